@@ -548,6 +548,103 @@ def c13_cosine_empty_rows():
     return None if d < 1e-5 else f"cosine with three all-zero rows: graph of fit(CSR) differs from graph of fit(dense) by {d}"
 
 
+def c05_verbose_short_run():
+    import contextlib
+    import io
+    import umap
+    X = _rng(0).normal(size=(40, 4)).astype(np.float32)
+    try:
+        with warnings.catch_warnings(), contextlib.redirect_stdout(io.StringIO()), contextlib.redirect_stderr(io.StringIO()):
+            warnings.simplefilter("ignore")
+            e = umap.UMAP(n_neighbors=6, n_epochs=5, verbose=True, random_state=1).fit_transform(X)
+    except Exception as ex:  # noqa
+        return f"UMAP(n_epochs=5, verbose=True).fit_transform raised {type(ex).__name__}: {ex}"
+    return None if e.shape == (40, 2) and np.isfinite(e).all() else f"shape {e.shape}"
+
+
+def c05_sparse_precomputed_tiny():
+    import umap
+    from sklearn.metrics import pairwise_distances
+    X = _rng(0).random((8, 6))
+    D = scipy.sparse.csr_matrix(pairwise_distances(X))
+    try:
+        with warnings.catch_warnings():
+            warnings.simplefilter("ignore")
+            e = umap.UMAP(metric="precomputed", random_state=1, n_epochs=5).fit_transform(D)
+    except Exception as ex:  # noqa
+        return f"sparse precomputed distances of 8 samples (n_neighbors=15): {type(ex).__name__}: {str(ex)[:90]}"
+    return None if e.shape == (8, 2) and np.isfinite(e).all() else f"shape {e.shape}"
+
+
+def c10_epochs_tuple():
+    import umap
+    X = _rng(0).normal(size=(60, 5)).astype(np.float32)
+    try:
+        with warnings.catch_warnings():
+            warnings.simplefilter("ignore")
+            for ne in ((6, 12), np.array([6, 12])):
+                m = umap.UMAP(n_neighbors=8, random_state=1, n_epochs=ne).fit(X[:50])
+                a = m.transform(X[50:55])
+                b = m.inverse_transform(m.embedding_[:3])
+                m.update(X[50:])
+                if a.shape != (5, 2) or b.shape != (3, 5) or m.embedding_.shape != (60, 2):
+                    return f"n_epochs={ne!r}: shapes {a.shape}, {b.shape}, {m.embedding_.shape}"
+    except Exception as e:  # noqa
+        return f"model fitted with n_epochs given as a tuple / array: {type(e).__name__}: {str(e)[:90]}"
+    return None
+
+
+def c10_sparse_update_formats():
+    import umap
+    r = _rng(0)
+    X = r.normal(size=(70, 5)).astype(np.float32)
+    X[np.abs(X) < 0.5] = 0
+    S = scipy.sparse.csr_matrix(X)
+    try:
+        with warnings.catch_warnings():
+            warnings.simplefilter("ignore")
+            m = umap.UMAP(n_neighbors=8, random_state=1, n_epochs=6).fit(S[:60])
+            m.update(X[60:])                      # a dense batch on a sparse model
+            S64 = S.copy()
+            S64.indices = S64.indices.astype(np.int64)
+            S64.indptr = S64.indptr.astype(np.int64)
+            same = np.array_equal(m.transform(S64), m.embedding_, equal_nan=True)
+            m.update(S[:3])
+    except Exception as e:  # noqa
+        return f"sparse model updated with a dense batch: {type(e).__name__}: {str(e)[:90]}"
+    return None if same else "transform(stacked training data with int64 index arrays) is not embedding_"
+
+
+def c11_densmap_update():
+    import umap
+    X = _rng(0).normal(size=(90, 5)).astype(np.float32)
+    try:
+        with warnings.catch_warnings():
+            warnings.simplefilter("ignore")
+            for kw in (dict(densmap=True), dict(output_dens=True)):
+                m = umap.UMAP(random_state=1, n_epochs=12, **kw).fit(X[:60])
+                m.update(X[60:])
+                f = umap.UMAP(random_state=1, n_epochs=12, **kw).fit(X)
+                if m.embedding_.shape != (90, 2) or not np.isfinite(m.embedding_).all() or (m.graph_ != f.graph_).nnz:
+                    return f"update with {kw}: embedding {m.embedding_.shape}, graph differs from the fresh fit's in {(m.graph_ != f.graph_).nnz} entries"
+    except Exception as e:  # noqa
+        return f"update of a densMAP / output_dens model: {type(e).__name__}: {str(e)[:90]}"
+    return None
+
+
+def c17_rad_emb_truncated_k():
+    import umap
+    X = _rng(0).normal(size=(10, 5)).astype(np.float32)
+    with warnings.catch_warnings():
+        warnings.simplefilter("ignore")
+        r0 = umap.UMAP(random_state=1, n_epochs=12, output_dens=True).fit_transform(X)
+        r1 = umap.UMAP(random_state=1, n_epochs=12, output_dens=True, densmap=True, dens_lambda=0.0).fit_transform(X)
+    if not np.array_equal(r0[0], r1[0]):
+        return "densMAP at zero weight differs from UMAP on 10 samples"
+    d = float(np.max(np.abs(r0[2] - r1[2])))
+    return None if d < 1e-6 else f"10 samples (fewer than n_neighbors): embedded radii with and without densmap=True (same embedding) differ by {d}"
+
+
 def c17_short_run():
     """n_epochs <= 10 on a graph with edges between max/700 and max/500"""
     import umap
@@ -697,6 +794,12 @@ WITNESSES = {
     "C19:relation-tensor-narrower-than-datasets": c19_tensor_width,
     "C19:aligned-unique-wrong-shape": c19_aligned_unique,
     "C13:cosine-empty-rows-sklearn-convention": c13_cosine_empty_rows,
+    "C05:verbose-short-run-zerodivision": c05_verbose_short_run,
+    "C05:sparse-precomputed-fewer-samples-than-neighbours": c05_sparse_precomputed_tiny,
+    "C10:n_epochs-tuple-or-array": c10_epochs_tuple,
+    "C10:sparse-update-format-and-index-dtype": c10_sparse_update_formats,
+    "C11:densmap-update-stale-distances": c11_densmap_update,
+    "C17:rad_emb-untruncated-n_neighbors": c17_rad_emb_truncated_k,
     "C15:symmetric-graph-start-vector": c15_symmetric_path,
     "C10:sparse-training-data-not-recognised": c10_csr_copy,
     "C10:list-n_epochs-transform-typeerror": c10_list_epochs,
